@@ -48,9 +48,17 @@ impl AstCache {
             let path = entry.path();
 
             if path.is_file() && path.extension().is_some_and(|ext| ext == "rs") {
-                // Skip target directory and other build artifacts
-                if path.to_string_lossy().contains("/target/")
-                    || path.to_string_lossy().contains("/.git/")
+                // Skip cargo's target directory (it lies directly in the project path) and
+                // version-control data; a module that is merely called `target`
+                // (src/target/mod.rs) is project code
+                let relative = path.strip_prefix(project_path).unwrap_or(path);
+                let mut components = relative
+                    .components()
+                    .map(|c| c.as_os_str().to_string_lossy().into_owned());
+                let first = components.next();
+                if first.as_deref() == Some("target")
+                    || first.as_deref() == Some(".git")
+                    || components.any(|c| c == ".git")
                 {
                     continue;
                 }
